@@ -3279,7 +3279,8 @@ static int expand_define () {
               if (c == ',' && !parcnt && !dquote && !squote)
                 {
                   *q++ = 0;
-                  args[++n] = q;
+                  if (++n < NARGS) /* else: "Maximum macro argument count exceeded" below */
+                    args[n] = q;
                 }
               else if (parcnt < 0)
                 {
